@@ -87,6 +87,27 @@ SEED = {
  "C18e": ("C18", "EmbeddedFS derives Default instead of `Default::default() = Self::new()`: a default-built instance has empty indexes", "EmbeddedFS built with Default::default(): nothing exists but the root, metadata of the root is not-found, open_file still delivers bytes", "embedded-fs"),
  "C19e": ("C19", "PhysicalFS time setters go through a helper that reads the current times; the fallback for the access time uses the modification time", "set_access_time(A) then set_modification_time(M): the access time becomes the previous modification time", ""),
  "C20e": ("C20", "VfsPath::create_dir_all forgives a failed create_dir when the path already is a directory", "an I/O failure inside an overlay's create_dir after the write-layer directory was made (marker check / removal): create_dir_all reports success, the directory is hidden from listings", ""),
+ # sixth round (one more change per property)
+ "C01f": ("C01", "OverlayFS::read_dir joins the absolute path onto each layer (join treats it as absolute): layers that are sub-directories are listed from their filesystem's root", "an overlay whose layers are non-root paths, listing any directory but the overlay's root: empty listing, remove_dir of a non-empty directory succeeds", ""),
+ "C02f": ("C02", "the stream-copy fallback of copy_file / move_file (factored into a helper) creates the destination before it opens the source", "copy_file / move_file whose source is a directory or missing: Err, but an empty destination file is left behind", ""),
+ "C03f": ("C03", "the same helper, arrived at independently: destination created before the source is opened", "overlay append_file on a non-empty directory that only a lower layer has: Err, and an empty FILE now shadows the directory whose children still exist", ""),
+ "C04f": ("C04", "VfsPath::copy_file drops the same-instance guard: the source filesystem's native copy_file runs even when the destination belongs to another instance", "copy between two PhysicalFS / AltrootFS instances: Ok, nothing arrives; overlay copy-up over physical layers truncates the LOWER file", ""),
+ "C05f": ("C05", "MemoryFS keeps its entries in a BTreeMap; remove_dir's emptiness test looks only at the key following the directory's own", "a non-empty directory with a sibling whose name extends it by a character sorting before '/' (docs + docs.txt): remove_dir succeeds, children orphaned", ""),
+ "C06f": ("C06", "extension_internal splits the whole path at the last dot instead of the file name", "a dotless file name below a directory with a dot in its name", ""),
+ "C07f": ("C07", "AltrootFS::read_dir strips the directory prefix with trim_start_matches", "a directory one level below the altroot's root holding entries whose names start with the directory's name", ""),
+ "C08f": ("C08", "OverlayFS::new drops layers whose root does not exist", "the write layer's directory is created after the overlay is constructed: the first lower layer becomes the write layer", ""),
+ "C09f": ("C09", "OverlayFS::read_dir decodes marker names with split_once(\"_wo\")", "removing an entry whose name contains _wo before its end (net_work.txt): still listed; a sibling named like the prefix vanishes", ""),
+ "C10f": ("C10", "OverlayFS::read_dir decodes marker names with trim_end_matches(\"_wo\") (the same slip as C05e, arrived at independently)", "remove x_wo_wo or x_wo next to x", ""),
+ "C11f": ("C11", "remove_dir_all drops its exists() pre-check and treats only FileNotFound from read_dir as absent", "remove_dir_all on an absent path below a regular file on PhysicalFS (ENOTDIR): Err instead of Ok", ""),
+ "C12f": ("C12", "AsyncPhysicalFS wraps the io::Error of its time setters as AsyncIoError, bypassing the NotFound normalisation", "async set_modification_time / set_access_time on a missing path of a physical directory", "async-vfs"),
+ "C13f": ("C13", "async WalkDirIterator keeps the completed metadata future in its slot on the error path and polls it again", "a walked entry whose metadata fails (removed after the listing, dangling symlink) followed by another entry: panic 'async fn resumed after completion'", "async-vfs"),
+ "C14f": ("C14", "PhysicalFS::create_file opens without truncate (as C01b / C04b, arrived at independently)", "create_file over a longer existing file", ""),
+ "C15f": ("C15", "AsyncVfsPath::create_dir_all returns Ok when exists() is true for the target", "async create_dir_all on an existing FILE: Ok, sync says FileExists", "async-vfs"),
+ "C16f": ("C16", "MemoryFS::create_file builds the WritableFile before taking the lock: on an error return the stale writer's drop publishes an empty buffer", "create_file fails (no parent); another thread creates parent and file and writes; the failed call's leftover writer then truncates it", "verif-hooks (deterministic demos; the stress demo needs none)"),
+ "C17f": ("C17", "OverlayFS create_dir / create_file prune empty marker directories after clearing a marker (list-then-remove_dir, not atomic)", "two sibling directories removed through the overlay are re-created concurrently: the loser's remove_dir of the shared marker directory fails", "verif-hooks (deterministic demos; the stress demos need none)"),
+ "C18f": ("C18", "EmbeddedFS::metadata answers Directory for every normalised path of length <= 1", "metadata on a missing one-byte top-level name", "embedded-fs"),
+ "C19f": ("C19", "PhysicalFS::metadata uses symlink_metadata", "a served entry that is a symbolic link: the setters change the target, metadata reports the link", ""),
+ "C20f": ("C20", "the stream copy of copy_file / move_file writes through a BufWriter that is never flushed: write errors surface in its drop, which discards them", "any failing write on the destination handle: copy_file / move_file / copy_dir / move_dir / overlay copy-up report success with an empty destination", ""),
 }
 matrix = {}
 mp = os.path.join(ROOT, "seeded", "matrix.txt")
